@@ -495,10 +495,10 @@ def poolxx_rules(rep, mod):
 # --------------------------------------------------------------------------
 # static_object_pool<T, 3>
 # --------------------------------------------------------------------------
-def sop_rules(rep, mod, elem, elem_label, probe):
-    rule = 'R-SOP'
+def sop_ctor_rule(rep, mod, elem, rule='R-SOP'):
+    """constructor: exactly the Capacity slots of 'storage' (stride sizeof(storage_type), padding included) are on the
+    free list, every store of the carving loop inside the object"""
     S = 'igris::static_object_pool<%s, 3' % elem
-    cname = [k for k in mod.structs if k.startswith('class.igris::static_object_pool')]
     ctor = M(mod, S, 'static_object_pool')
     this_ty = tyname_of(ctor.params[0])
     stl = mod.structs.get(this_ty)
@@ -510,12 +510,11 @@ def sop_rules(rep, mod, elem, elem_label, probe):
     cap = 3
     slot = (total - soff) // cap
     tag = S.split('::')[-1] + '>'
-    # constructor: exactly the three slots of 'storage' are on the free list
     st = State()
     this = st.new_obj('param', Lin(total), 'sop', {'desc': 'static_object_pool object'})
     it = Interp(mod)
     rets = it.run_function(ctor, st, [PtrVal(this.id)])
-    ok, detail = bool(rets), None if rets else 'no feasible return'
+    ok, detail = bool(rets), None if rets else 'no feasible return (an assertion of pool_engage fails for this element type)'
     for (T, rv) in rets:
         p = T.mem.get((this.id, 0, 8))
         chain = []
@@ -533,7 +532,14 @@ def sop_rules(rep, mod, elem, elem_label, probe):
     bad = bad_obligs(it)
     if ok and bad:
         ok, detail = False, bad[0].detail
-    rep.inst(rule, tag + '::static_object_pool', 'carves-exactly-the-storage-slots', ok, where_of(ctor), detail)
+    rep.inst(rule, tag + '::static_object_pool', 'carves-exactly-the-storage-slots', ok, where_of(ctor), detail,
+             fact={'slot_bytes': slot, 'storage_offset': soff, 'capacity': cap})
+    return S, total, slot, tag
+
+
+def sop_rules(rep, mod, elem, elem_label, probe):
+    rule = 'R-SOP'
+    S, total, slot, tag = sop_ctor_rule(rep, mod, elem, rule)
 
     # create(): constructs in the popped cell, or answers nullptr without constructing
     creates = sorted([f for f in class_methods(mod, S) if base_name(f) == 'create'], key=lambda f: f.name)
@@ -1035,6 +1041,8 @@ def run(rep, repo, tier):
     poolxx_rules(rep, mod)
     sop_rules(rep, mod, 'int', 'int', probe=False)
     sop_rules(rep, mod, 'VTr', 'VTr', probe=True)
+    # an element whose storage cell is padded (sizeof 12, alignment 4 -> 16-byte cells): stride must be the padded cell
+    sop_ctor_rule(rep, mod, 'igris_verif_P12')
     static_witness(rep, repo)
     rep.units.append('witness/w_c10_static.cpp (-fsyntax-only)')
     mm = heap_unit(repo, 'compat/mem/lin_malloc.cpp')
